@@ -75,7 +75,7 @@ class EngineC13(EngineC14):
             name = op["name"] if kind in ("insn", "loaded_insn", "compile_parsed") else None
             if kind == "loaded_insn":
                 parts = o.get("loaded_parts") or []
-            elif kind == "fresh2":
+            elif kind in ("fresh2", "xform2"):
                 parts = list(op["codes"])
             else:
                 parts = op["parts"] if kind in ("insn", "compile_parsed") else [op["code"]]
